@@ -11,7 +11,7 @@
  AnyManifold           rplus / rminus / dof forward to the wrapped M (virtual dispatch executed through the constant vtable);
                        a copy is an independent heap object: mutating the copy leaves the original's coefficients unchanged
  std::variant<SO3d, SE2d, Vector2d>   rplus / rminus / dof / cast equal those of the active alternative and preserve its index
-Not covered: the std::vector<M> adaptor (clang 14 cannot instantiate its ranges code, DESIGN.md 1.2).
+The std::vector<M> adaptor (clang 14 cannot instantiate its ranges code, DESIGN.md 1.2) is covered by a BOUNDED native stand-in only.
 """
 import random
 
@@ -19,7 +19,7 @@ from irsx import dag, engine, diff as dd, symex
 from irsx.engine import Extract
 from irsx.smat import M, vars_, ZERO, ONE
 from . import groups as G_
-from .common import guarded, Results, prove_pairs, group_extract, write_replay, match_by_samples, ok_paths, fmt_env
+from .common import guarded, Results, prove_pairs, group_extract, write_replay, match_by_samples, ok_paths, fmt_env, isolated
 from .lie import Fn, mat_pairs, vec_pairs
 
 PROP = "C07"
@@ -459,12 +459,134 @@ def run_axioms(gname, tier="quick", seed=0):
     return res
 
 
+# ------------------------------------------------------------------------------------------ std::vector<M>: bounded stand-in only
+def vector_native_tu():
+    return r"""
+#include <cmath>
+#include <random>
+#include <vector>
+#include <Eigen/Core>
+#include <smooth/manifolds.hpp>
+#include <smooth/so3.hpp>
+#include <smooth/se2.hpp>
+using namespace smooth;
+static std::mt19937 gen;
+static double unif(double a, double b) { return std::uniform_real_distribution<double>(a, b)(gen); }
+template<class T> struct Mk;
+template<> struct Mk<Eigen::VectorXd> { static Eigen::VectorXd make(int n) { Eigen::VectorXd v(n); for (int i = 0; i < n; ++i) v(i) = unif(-2, 2); return v; } };
+template<> struct Mk<Eigen::Vector2d> { static Eigen::Vector2d make(int) { return Eigen::Vector2d(unif(-2, 2), unif(-2, 2)); } };
+template<> struct Mk<SO3d> { static SO3d make(int) { return SO3d::exp(Eigen::Vector3d(unif(-1, 1), unif(-1, 1), unif(-1, 1))); } };
+template<> struct Mk<SE2d> { static SE2d make(int) { return SE2d::exp(Eigen::Vector3d(unif(-1, 1), unif(-1, 1), unif(-1, 1))); } };
+template<class T> struct Mk<std::vector<T>> { static std::vector<T> make(int n) { std::vector<T> v; for (int i = 0; i < n; ++i) v.push_back(Mk<T>::make(1 + i % 3)); return v; } };
+template<class M> static double dist(const M & a, const M & b) { const auto d = rminus(a, b); return d.size() ? d.cwiseAbs().maxCoeff() : 0.; }
+// out: [0] |rminus(rplus(m,a),m) - a|, [1] dist(rplus(m, rminus(m2,m)), m2), [2] |rminus(m,m)|, [3] element i of rplus(m,a) vs rplus(m[i], i-th consecutive segment of a),
+//      [4] |segment i of rminus(m2,m) - rminus(m2[i], m[i])|, [5] copy independence;  dofs: [0] dof(m), [1] sum of element dofs, [2] size of rminus(m2, m)
+template<class E> static void run(const std::vector<int> & sizes, double * out, int * dofs)
+{
+  using M = std::vector<E>;
+  M m, m2;
+  for (int n : sizes) { m.push_back(Mk<E>::make(n)); m2.push_back(Mk<E>::make(n)); }
+  const Eigen::Index N = dof(m);
+  Eigen::Index sum = 0;
+  for (const auto & e : m) sum += dof(e);
+  Eigen::VectorXd a(N);
+  for (Eigen::Index i = 0; i < N; ++i) a(i) = unif(-0.5, 0.5);
+  const M mp = rplus(m, a);
+  const Eigen::VectorXd back = rminus(mp, m);
+  out[0] = (back.size() == a.size()) ? (N ? (back - a).cwiseAbs().maxCoeff() : 0.) : 1e9;
+  const Eigen::VectorXd d = rminus(m2, m);
+  out[1] = dist(rplus(m, d), m2);
+  { const Eigen::VectorXd z = rminus(m, m); out[2] = z.size() ? z.cwiseAbs().maxCoeff() : 0.; }
+  out[3] = out[4] = 0;
+  Eigen::Index off = 0;
+  for (std::size_t i = 0; i < m.size(); ++i) {
+    const Eigen::Index ni = dof(m[i]);
+    const auto ei = rplus(m[i], a.segment(off, ni));
+    out[3] = std::max(out[3], mp.size() == m.size() ? dist(mp[i], ei) : 1e9);
+    const Eigen::VectorXd di = rminus(m2[i], m[i]);
+    out[4] = std::max(out[4], d.size() == N ? (ni ? (d.segment(off, ni) - di).cwiseAbs().maxCoeff() : 0.) : 1e9);
+    off += ni;
+  }
+  { M c = m; const M saved = m; c = rplus(c, a); out[5] = dist(m, saved); }
+  dofs[0] = (int)N; dofs[1] = (int)sum; dofs[2] = (int)d.size();
+}
+extern "C" void vec_axioms(int kind, unsigned seed, double * out, int * dofs)
+{
+  gen.seed(seed);
+  switch (kind) {
+  case 0: run<Eigen::VectorXd>({3, 4, 2}, out, dofs); break;
+  case 1: run<SO3d>({1, 1, 1}, out, dofs); break;
+  case 2: run<std::vector<SO3d>>({2, 1, 1}, out, dofs); break;
+  case 3: run<Eigen::VectorXd>({}, out, dofs); break;
+  case 4: run<Eigen::Vector2d>({1, 1, 1, 1}, out, dofs); break;
+  case 5: run<Eigen::VectorXd>({1, 5}, out, dofs); break;
+  case 6: run<std::vector<Eigen::VectorXd>>({3, 1, 2}, out, dofs); break;
+  case 7: run<SE2d>({1, 1}, out, dofs); break;
+  default: run<Eigen::VectorXd>({2, 2, 2}, out, dofs); break;
+  }
+}
+"""
+
+
+def run_vector_standin(tier="quick", seed=0):
+    """[bounded] std::vector<M> (manifolds/vector.hpp cannot be compiled by clang 14, so it is executed natively only): the manifold axioms,
+    dof == sum of the element dofs == tangent length, and element-wise action on CONSECUTIVE tangent segments, for containers of
+    dynamically sized elements of different sizes, nested containers, Lie-group elements and the empty container."""
+    import ctypes
+    from irsx import build
+    res = Results(PROP)
+    tag = PROP + "/standin/std::vector<M>"
+    try:
+        lib = ctypes.CDLL(build.compile_tu("c07_vector_native", vector_native_tu(), "so-gcc"))
+    except Exception as e:
+        res.add(tag + "/build", "error", "infra", 0.0, str(e)[-1500:])
+        return res
+    f = lib.vec_axioms
+    f.restype = None
+    kinds = ["VectorXd sizes (3,4,2)", "SO3d x 3", "vector<SO3d> sizes (2,1,1)", "empty", "Vector2d x 4", "VectorXd sizes (1,5)", "vector<VectorXd> sizes (3,1,2)", "SE2d x 2",
+             "VectorXd sizes (2,2,2)"]
+    names = ["rminus(rplus(m,a),m)==a", "rplus(m,rminus(m2,m))==m2", "rminus(m,m)==0", "rplus acts element-wise on consecutive segments",
+             "rminus reports element-wise on consecutive segments", "copy is independent"]
+    reps = 5 if tier == "quick" else 50
+    worst = {}
+    pts = 0
+    for kind, kn in enumerate(kinds):
+        for r in range(reps):
+            def one(kind=kind, r=r):
+                out, dofs = (ctypes.c_double * 6)(), (ctypes.c_int * 3)()
+                f(kind, ctypes.c_uint(seed * 1000 + 17 * r + kind), out, dofs)
+                return list(out), list(dofs)
+            st_, val_ = isolated(one)
+            pts += 1
+            if st_ != "ok":
+                # the library code aborted (Eigen assertion: a tangent segment outside the vector) or crashed
+                worst.setdefault("rplus acts element-wise on consecutive segments", dict(container=kn, seed=seed * 1000 + 17 * r + kind, error="native run " + val_))
+                continue
+            vals, dofs = val_
+            for nm, v in zip(names, vals):
+                if not (v <= 1e-9) and nm not in worst:
+                    worst[nm] = dict(container=kn, seed=seed * 1000 + 17 * r + kind, error=v)
+            if not (dofs[0] == dofs[1] == dofs[2]) and "dof" not in worst:
+                worst["dof"] = dict(container=kn, dof=dofs[0], sum_of_element_dofs=dofs[1], rminus_size=dofs[2])
+    res.standins.append(dict(function="traits::man<std::vector<M>>", points=pts, label="bounded"))
+    res.functions.add("traits::man<std::vector<M>> (bounded stand-in)")
+    for nm in names + ["dof"]:
+        oid = "%s/%s" % (tag, nm if nm != "dof" else "dof == sum of element dofs == tangent length")
+        if nm in worst:
+            res.add(oid, "bounded-fail", "bounded-standin", 0.0, repr(worst[nm])[:300], witness=worst[nm],
+                    extra=dict(confirmed=True, replay=write_replay(oid, dict(obligation=oid, property=PROP, witness=worst[nm], function="vec_axioms", tu_text=vector_native_tu()))))
+        else:
+            res.add(oid, "bounded-ok", "bounded-standin", 0.0, "%d containers" % pts)
+    return res
+
+
 def tasks(tier, seed=0):
     t = [("c07", "run_sub", (k,), dict(tier=tier, seed=seed, canary=(k == "so3"))) for k in MS]
     t.append(("c07", "run_any", (), dict(tier=tier, seed=seed)))
     t.append(("c07", "run_variant", (), dict(tier=tier, seed=seed)))
     for g in ["SO2", "SO3", "SE2", "C1"]:      # SE3: path feasibility of the composed log/exp paths no longer finishes in reasonable time (six series/closed classes per tail)
         t.append(("c07", "run_axioms", (g,), dict(tier=tier, seed=seed)))
+    t.append(("c07", "run_vector_standin", (), dict(tier=tier, seed=seed)))
     return t
 
 
@@ -479,5 +601,5 @@ TRUSTED = ["A1 real-arithmetic reading (nf obligations)", "A2 libm contracts inc
            "virtual dispatch through constant vtables and std::visit's dispatch tables", "A7 configurations: base manifolds, variant alternatives sampled",
            "rewrite rule R3 (typename) on the scratch copy of submanifold.hpp"]
 ASSUMPTIONS = ["unit-norm group inputs; |a_rot| < pi for the round-trip axiom; both SubManifold operands share origin and fixed dimensions"]
-UNVERIFIED = ["std::vector<M> adaptor (manifolds/vector.hpp): clang 14 cannot instantiate its std::ranges code; its segment bookkeeping is not under contract",
+UNVERIFIED = ["std::vector<M> adaptor (manifolds/vector.hpp): clang 14 cannot instantiate its std::ranges code; its segment bookkeeping is not under contract (bounded native stand-in only)",
               "rplus(m, rminus(m2, m)) == m2 is covered by the exp(log g) == g and group-axiom contracts of C01/C02 (lemma), not composed here"]
